@@ -1,5 +1,208 @@
 import Sentinel.Drv.Common
-/-! Driver for C02 (stub: replaced by the property's real driver) -/
+import Sentinel.Model.FlowReject
+/-!
+Driver for C02.
+
+* `model`  — the code-shaped model (`load`, `entry`, `runSched` over leap arrays)
+* `spec`   — the array-free reference over the history of admitted arrivals (`refCheck`, `refRunSched`);
+             the history evolves by the as-is wiring (`RuleInfo.feed`), the *claimed* decision is the one
+             the property demands (`Rule.src`); where they can differ (a rule of the entered resource lies in
+             the region of `assoc-standalone-own-traffic`) the answer is `?known:<key>:<claimed>`
+* `oracle` — reads an implementation trace and checks the window caps (`≤ T`, and `≤ T + (k-1)·maxBatch`
+             once `k` entries were simultaneously inside the admission path) from the observed decisions
+
+Ops:  `clock <ms>` · `load <n> <res,thr,iv,ref>*n` (thr = `f:<hex16>`, ref = `-` or a resource) ·
+      `entry <res> <batch>` · `par <res> <b0,b1,…> <i0,i1,…>` (schedule of thread ids: first occurrence =
+      check phase, second = statistic phase) · `sum <res>` (pass sum of the node's default view, `-` = no node)
+-/
 namespace Sentinel.Drv.C02
-def run (_mode : String) : IO Unit := IO.eprintln "C02: driver not implemented"
+open Sentinel.LA Sentinel.FlowReject Sentinel.Drv
+
+def knownKey : String := "assoc-standalone-own-traffic"
+
+structure DSt where
+  s : St := {}
+  loaded : Bool := false
+  now : Nat := 0
+  mono : Bool := true
+  -- spec / oracle side
+  infos : List RuleInfo := []
+  H : List Arrival := []
+  seen : List Nat := []          -- resources that have a node
+  width : Nat := 1               -- oracle: largest number of entries seen simultaneously inside the admission path
+  maxB : Nat := 0                -- oracle: largest batch among them
+
+def parseRule (s : String) : Option Rule :=
+  match s.splitOn "," with
+  | [res, thr, iv, ref] =>
+    match res.toNat?, (if thr.startsWith "f:" then parseHex? (thr.drop 2).toString else none), iv.toNat? with
+    | some res, some bits, some iv =>
+      if ref = "-" then some { res := res, thr := Thr.ofBits bits, iv := iv }
+      else match ref.toNat? with
+        | some r => some { res := res, thr := Thr.ofBits bits, iv := iv, ref := some r }
+        | none => none
+    | _, _, _ => none
+  | _ => none
+
+def parseRules : List String → Option (List Rule)
+  | [] => some []
+  | x :: r => match parseRule x, parseRules r with
+    | some a, some b => some (a :: b)
+    | _, _ => none
+
+def parseNats (s : String) : Option (List Nat) :=
+  (s.splitOn ",").foldr (fun x acc => match x.toNat?, acc with
+    | some n, some l => some (n :: l) | _, _ => none) (some [])
+
+def showD : Option Nat → String
+  | none => "pass"
+  | some i => s!"block flow {i}"
+
+def addSeen (l : List Nat) (r : Nat) : List Nat := if l.contains r then l else l ++ [r]
+
+/-- some rule of `res` counts a different resource than the property demands -/
+def inRegion (infos : List RuleInfo) (res : Nat) : Bool :=
+  infos.any fun c => c.rule.res = res && c.inFinding
+
+def srcDemanded (c : RuleInfo) : Nat := c.rule.src
+
+/-- a schedule is well formed when every thread id is in range and occurs exactly twice -/
+def schedOk (k : Nat) (sched : List Nat) : Bool :=
+  sched.all (· < k) && (List.range k).all fun i => sched.count i = 2
+
+/-- largest number of threads simultaneously between check and record -/
+def schedWidth (sched : List Nat) : Nat :=
+  let rec go (inpath : List Nat) (best : Nat) : List Nat → Nat
+    | [] => best
+    | i :: r =>
+      if inpath.contains i then go (inpath.erase i) best r
+      else go (i :: inpath) (max best (inpath.length + 1)) r
+  go [] 0 sched
+
+def decisionsOf (ths : List (Option (Option Nat × Bool))) : String :=
+  showList (ths.map fun st => match st with | some (d, _) => showD d | none => "-")
+
+/-- window-cap check of the oracle: every own-traffic rule of `res`, at `now`, with the allowed slack -/
+def capViolations (st : DSt) (res : Nat) : List String :=
+  st.infos.filterMap fun c =>
+    if c.rule.res = res ∧ c.rule.src = res then
+      let tok := windowTokens st.H res c.L c.Iv st.now
+      if c.rule.thr.exceeds (tok - (st.width - 1) * st.maxB) then some s!"cap rule {c.idx} tokens {tok}" else none
+    else none
+
+def stepModel (st : DSt) (ts : List String) : DSt × Option String :=
+  match ts with
+  | ["clock", t] => match t.toNat? with
+      | some t => ({ st with now := t }, none)
+      | none => (st, some "bad-op")
+  | "load" :: n :: rs => match n.toNat?, parseRules rs with
+      | some n, some rules =>
+        if st.loaded || n ≠ rules.length then (st, some "bad-op") else
+        let s := load rules st.now
+        ({ st with s := s, loaded := true }, some s!"ok {s.ctrls.length}")
+      | _, _ => (st, some "bad-op")
+  | ["entry", res, b] => match res.toNat?, b.toNat? with
+      | some res, some b =>
+        let (s, d) := entry st.s res st.now b
+        ({ st with s := s }, some (showD d))
+      | _, _ => (st, some "bad-op")
+  | ["par", res, bs, sched] => match res.toNat?, parseNats bs, parseNats sched with
+      | some res, some bs, some sched =>
+        if !schedOk bs.length sched then (st, some "bad-op") else
+        let ths : List Thread := bs.map fun b => { res := res, b := b }
+        let (s, ths) := runSched st.s st.now ths sched
+        ({ st with s := s }, some (decisionsOf (ths.map (·.st))))
+      | _, _, _ => (st, some "bad-op")
+  | ["sum", res] => match res.toNat? with
+      | some res => match lookup st.s.nodes res with
+        | some a => (st, some (toString (viewSum a dIv st.now)))
+        | none => (st, some "-")
+      | none => (st, some "bad-op")
+  | _ => (st, some "bad-op")
+
+def stepSpec (st : DSt) (ts : List String) : DSt × Option String :=
+  match ts with
+  | ["clock", t] => match t.toNat? with
+      | some t => ({ st with now := t, mono := st.mono && decide (st.now ≤ t) }, none)
+      | none => (st, some "bad-op")
+  | "load" :: n :: rs => match n.toNat?, parseRules rs with
+      | some n, some rules =>
+        if st.loaded || n ≠ rules.length then (st, some "bad-op") else
+        let infos := compile rules
+        let seen := (rules.filter (·.valid)).foldl (fun l r => addSeen l r.src) st.seen
+        ({ st with infos := infos, loaded := true, seen := seen }, some s!"ok {infos.length}")
+      | _, _ => (st, some "bad-op")
+  | ["entry", res, b] => match res.toNat?, b.toNat? with
+      | some res, some b =>
+        let a : Arrival := { t := st.now, res := res, b := b }
+        let asis := refCheck RuleInfo.feed st.infos st.H res st.now b
+        let claim := refCheck srcDemanded st.infos st.H res st.now b
+        let st' := { st with H := if asis.isNone then st.H ++ [a] else st.H, seen := addSeen st.seen res }
+        if !st.mono || st.now = 0 then (st', some "?")
+        else if inRegion st.infos res then (st', some s!"?known:{knownKey}:{showD claim}")
+        else (st', some (showD claim))
+      | _, _ => (st, some "bad-op")
+  | ["par", res, bs, sched] => match res.toNat?, parseNats bs, parseNats sched with
+      | some res, some bs, some sched =>
+        if !schedOk bs.length sched then (st, some "bad-op") else
+        let ths : List Thread := bs.map fun b => { res := res, b := b }
+        let (H', asis) := refRunSched RuleInfo.feed st.infos st.H st.now ths sched
+        let (_, claim) := refRunSched srcDemanded st.infos st.H st.now ths sched
+        let st' := { st with H := H', seen := addSeen st.seen res }
+        if !st.mono || st.now = 0 then (st', some "?")
+        else if inRegion st.infos res then (st', some s!"?known:{knownKey}:{decisionsOf (claim.map (·.st))}")
+        else (st', some (decisionsOf (asis.map (·.st))))
+      | _, _, _ => (st, some "bad-op")
+  | ["sum", res] => match res.toNat? with
+      | some res =>
+        if !st.mono || st.now = 0 then (st, some "?")
+        else if st.seen.contains res then (st, some (toString (windowTokens st.H res gL dIv st.now)))
+        else (st, some "-")
+      | none => (st, some "bad-op")
+  | _ => (st, some "bad-op")
+
+def parseD (r : String) : Option (Option Nat) :=
+  match toks r with
+  | ["pass"] => some none
+  | ["block", "flow", i] => i.toNat?.map some
+  | _ => none
+
+/-- oracle: judge the implementation's own trace -/
+def stepOracle (st : DSt) (ts : List String) (line : String) : DSt × Option String :=
+  let res? := resPart line
+  match ts with
+  | ["clock", t] => match t.toNat? with
+      | some t => ({ st with now := t, mono := st.mono && decide (st.now ≤ t) }, none)
+      | none => (st, some "bad-op")
+  | "load" :: _ :: rs => match parseRules rs with
+      | some rules => ({ st with infos := compile rules, loaded := true }, some "ok")
+      | none => (st, some "bad-op")
+  | ["entry", res, b] => match res.toNat?, b.toNat?, res?.bind parseD with
+      | some res, some b, some d =>
+        if d.isSome then (st, some "ok") else
+        let st' := { st with H := st.H ++ [{ t := st.now, res := res, b := b }] }
+        if !st.mono then (st', some "?") else
+        match capViolations st' res with
+        | [] => (st', some "ok")
+        | v :: _ => (st', some ("bad " ++ v))
+      | _, _, _ => (st, some "bad-op")
+  | ["par", res, bs, sched] => match res.toNat?, parseNats bs, parseNats sched, res? with
+      | some res, some bs, some sched, some r =>
+        let ds := ((r.drop 1).dropEnd 1).toString.splitOn ","
+        if ds.length ≠ bs.length then (st, some "bad-op") else
+        let adm := (bs.zip ds).filterMap fun (b, d) => if d = "pass" then some ({ t := st.now, res := res, b := b } : Arrival) else none
+        let st' := { st with H := st.H ++ adm, width := max st.width (schedWidth sched), maxB := max st.maxB (bs.foldl max 0) }
+        if !st.mono then (st', some "?") else
+        match capViolations st' res with
+        | [] => (st', some "ok")
+        | v :: _ => (st', some ("bad " ++ v))
+      | _, _, _, _ => (st, some "bad-op")
+  | ["sum", _] => (st, some "ok")
+  | _ => (st, some "bad-op")
+
+def run (mode : String) : IO Unit :=
+  if mode == "spec" then loop ({} : DSt) (fun st ts _ => stepSpec st ts)
+  else if mode == "oracle" then loop ({} : DSt) stepOracle
+  else loop ({} : DSt) (fun st ts _ => stepModel st ts)
+
 end Sentinel.Drv.C02
